@@ -9,7 +9,9 @@ import (
 	"sort"
 	"strings"
 	"sync"
+	"sync/atomic"
 	"testing"
+	"time"
 
 	jfuse "github.com/jacobsa/fuse"
 	"github.com/jacobsa/fuse/fuseops"
@@ -371,6 +373,9 @@ func c17readDir(rep *lib.Report, fs fuseutil.FileSystem, ino fuseops.InodeID, na
 	}
 }
 
+var c17hangs int64
+var c17skipped sync.Once
+
 func TestC17(t *testing.T) {
 	rep := lib.NewReport("C17", "exploration")
 	defer rep.Finish(t)
@@ -409,7 +414,29 @@ func TestC17(t *testing.T) {
 		go func(c c17case) {
 			defer wg.Done()
 			defer func() { <-sem }()
-			c17run(rep, c)
+			// a mount whose operations never return must not take the whole check with it: the case runs under a watchdog
+			// (its goroutine is abandoned if it is stuck); after three stuck cases the remaining ones are not started
+			if atomic.LoadInt64(&c17hangs) >= 3 {
+				c17skipped.Do(func() { rep.NotExhaustive("three cases were stuck in a file system operation: the remaining cases were not run") })
+				return
+			}
+			done := make(chan struct{})
+			go func() {
+				defer close(done)
+				c17run(rep, c)
+			}()
+			select {
+			case <-done:
+			case <-time.After(3 * time.Minute):
+				mode := "streamed"
+				if !c.Streamed {
+					mode = "pre-downloaded"
+				}
+				if atomic.AddInt64(&c17hangs, 1) <= 3 {
+					rep.Violate("C17|hang|"+mode, fmt.Sprintf("the battery over paths %v (mode %s, prefetch %d, verify %v) did not finish within 3 minutes: a file system operation never returned", c.Paths, mode, c.Prefetch, c.Verify),
+						map[string]interface{}{"paths": c.Paths, "mode": mode, "prefetch": c.Prefetch})
+				}
+			}
 		}(c)
 	}
 	wg.Wait()
